@@ -1,12 +1,26 @@
 import Sourmash.Model.Ani
 import Sourmash.Lemmas.AniReal
+import Sourmash.Lemmas.AniCi
 /-!
 Property C19 — ANI estimates from containment are monotone, bounded and inside their CI.  **Partial.**
 
 What is proved here
 * `point_*_branch`, `ci_*_branch` (T-point_branches, T-ci_degenerate): the branch structure of
   `ani_from_containment` / `ani_ci_from_containment`, for *every* number type (so also for binary64):
-  when the `== 0.0` / `== 1.0` test fires the literal `0.0` / `1.0` (resp. `(0,0)` / `(1,1)`) is returned.
+  when the `== 0.0` / `== 1.0` test fires the literal `0.0` / `1.0` (resp. `(0,0)` / `(1,1)`) is returned;
+  `bias_factor_saturates`: for more than `i32::MAX` unique k-mers the `powi` exponent is `i32::MAX`.
+* `point_real_*` (T-point_real), over the ideal reals: the model expression `1 − (1 − c^(1/k))` equals
+  `c^(1/k)`; it is 0 at 0, 1 at 1, strictly increasing and within [0,1] on [0,1], for every real k ≥ 1.
+* `ci_range` (T-ci_range), **assuming the Brent contract** (`BrentContract`: a returned root lies in the
+  bracket; failure is replaced by the default 0): both ends of the interval lie in [0,1].
+* `ci_sign_at_point`, `ci_roots_exist`, `ci_order_real` (T-ci_order_real), ideal reals: at the point
+  estimate's distance `p* = 1 − c^(1/k)`, `f₂(p*) ≤ 0 ≤ f₁(p*)`; when no `var_n_mutated` error is
+  swallowed on the bracket (then `f₁`, `f₂` are continuous — proved) and the bracket ends have the signs
+  `f₁(hi) ≤ 0 ≤ f₂(lo)`, roots `r₁ ∈ [p*, hi]`, `r₂ ∈ [lo, p*]` exist and `1 − r₁ ≤ point ≤ 1 − r₂`.
+  (Over ℝ `Real.sqrt` of a negative number is 0, so the design's extra hypothesis `var_direct(p*) ≥ 0`
+  is not needed; in binary64 a negative variance gives NaN — runtime.)
+* `gather_ani_fields`, `gather_ani_real` (T-gather_ani): the ANI fields of `calculate_gather_stats`
+  are these functions of the containments it reports; average = mean, max = max, all within [0,1].
 
 NOT decided by proof (runtime only, searched by `./check C19` over the grid of the property's quantifier):
 * `low ≤ point ≤ high` for the **computed** interval — it depends on which root `roots::find_root_brent`
@@ -91,5 +105,259 @@ theorem ci_at_endpoints (brent : ℝ → ℝ → (ℝ → ℝ) → Option ℝ) (
   constructor
   · rw [ci_zero_branch _ _ _ _ _ _ _ (by simp)]; simp
   · rw [ci_one_branch _ _ _ _ _ _ _ (by simp) (by simp)]; simp
+
+/-! ### saturation of the integer power (any number type) -/
+
+/-- for every `n_unique_kmers > i32::MAX` the `as i32` cast saturates, so the bias factor no longer
+depends on `n` (the code raises `1 − 1/scaled` to the power `2³¹ − 1`, not `n`). -/
+theorem bias_factor_saturates {α : Type} [RealLike α] (scaled n m : Nat)
+    (hn : i32Max < n) (hm : i32Max < m) : (biasFactor scaled n : α) = biasFactor scaled m := by
+  simp [biasFactor, satI32_of_gt hn, satI32_of_gt hm]
+
+example : i32Max < 2 ^ 31 ∧ i32Max < 2 ^ 40 := by decide
+
+/-- over ℝ the saturated bias factor differs from the intended `1 − (1 − 1/scaled)^n` by at most
+`(1 − 1/scaled)^(2³¹−1)` (about `e^(−2³¹/scaled)`: negligible for scaled ≤ 10⁴). -/
+theorem bias_saturation_error (scaled n : Nat) (hs : 1 ≤ scaled) (hn : i32Max < n) :
+    |(biasFactor scaled n : ℝ) - (1 - (1 - 1 / (scaled : ℝ)) ^ n)| ≤ (1 - 1 / (scaled : ℝ)) ^ i32Max := by
+  have hs' : (1 : ℝ) ≤ (scaled : ℝ) := by exact_mod_cast hs
+  have hx0 : 0 ≤ 1 - 1 / (scaled : ℝ) := by
+    rw [sub_nonneg, div_le_one (by linarith)]; exact hs'
+  have hx1 : 1 - 1 / (scaled : ℝ) ≤ 1 := by
+    have : 0 ≤ 1 / (scaled : ℝ) := by positivity
+    linarith
+  have hpow : (1 - 1 / (scaled : ℝ)) ^ n ≤ (1 - 1 / (scaled : ℝ)) ^ i32Max :=
+    pow_le_pow_of_le_one hx0 hx1 hn.le
+  have hpos : 0 ≤ (1 - 1 / (scaled : ℝ)) ^ n := pow_nonneg hx0 n
+  simp only [biasFactor, satI32_of_gt hn, fScaled, powi_real, lit_real, Nat.cast_one]
+  rw [abs_le]
+  constructor <;> linarith
+
+example : (1 : Nat) ≤ 1000 ∧ i32Max < 2 ^ 32 := by decide
+
+/-! ### T-point_real -/
+
+/-- T-point_real: the model expression `1 − (1 − c^(1/k))` (with its two endpoint branches) is
+`c^(1/k)` over ℝ, for every c and every k ≥ 1. -/
+theorem point_real_eq (c k : ℝ) (hk : 1 ≤ k) : aniFromContainment c k = c ^ (1 / k) := by
+  have hk0 : (1 / k) ≠ 0 := by positivity
+  unfold aniFromContainment
+  simp only [beq_real, lit_real, Nat.cast_zero, Nat.cast_one, powf_real, decide_eq_true_eq]
+  split_ifs with h0 h1
+  · subst h0; rw [Real.zero_rpow hk0]
+  · subst h1; rw [Real.one_rpow]
+  · ring
+
+/-- T-point_real: `c ↦ c^(1/k)` is 0 at 0 and 1 at 1. -/
+theorem point_real_endpoints (k : ℝ) (hk : 1 ≤ k) : (0 : ℝ) ^ (1 / k) = 0 ∧ (1 : ℝ) ^ (1 / k) = 1 :=
+  ⟨Real.zero_rpow (by positivity), Real.one_rpow _⟩
+
+/-- T-point_real: strictly increasing in the containment on [0,1] (indeed on [0,∞)). -/
+theorem point_real_strictMono (k : ℝ) (hk : 1 ≤ k) :
+    StrictMonoOn (fun c : ℝ => aniFromContainment c k) (Set.Icc 0 1) := by
+  intro a ha b _ hab
+  simp only [point_real_eq _ _ hk]
+  exact Real.rpow_lt_rpow ha.1 hab (by positivity)
+
+/-- T-point_real: within [0,1] on [0,1]. -/
+theorem point_real_range (c k : ℝ) (hk : 1 ≤ k) (hc : c ∈ Set.Icc (0:ℝ) 1) :
+    aniFromContainment c k ∈ Set.Icc (0:ℝ) 1 := by
+  rw [point_real_eq _ _ hk]
+  exact ⟨Real.rpow_nonneg hc.1 _, Real.rpow_le_one hc.1 hc.2 (by positivity)⟩
+
+/-- non-vacuity (k = 21, c = 1/2) -/
+example : (1 : ℝ) ≤ 21 ∧ (1 / 2 : ℝ) ∈ Set.Icc (0:ℝ) 1 := by
+  constructor
+  · norm_num
+  · constructor <;> norm_num
+
+/-! ### T-ci_range -/
+
+/-- T-ci_range: **assuming the Brent contract**, both ends of the interval lie in [0,1] — for every
+containment, k, scaled, n, confidence and every probit. -/
+theorem ci_range (brent : ℝ → ℝ → (ℝ → ℝ) → Option ℝ) (hb : BrentContract brent) (probit : ℝ → ℝ)
+    (c : ℝ) (k scaled n : Nat) (conf : Option ℝ) :
+    (aniCiFromContainment brent probit c k scaled n conf).1 ∈ Set.Icc (0:ℝ) 1 ∧
+    (aniCiFromContainment brent probit c k scaled n conf).2 ∈ Set.Icc (0:ℝ) 1 := by
+  unfold aniCiFromContainment
+  simp only [beq_real, lit_real, Nat.cast_zero, Nat.cast_one, decide_eq_true_eq]
+  split_ifs with h0 h1
+  · simp
+  · simp
+  · have h1 := sol_range brent hb (ciF1 (probit (probitArg conf)) c k scaled n)
+    have h2 := sol_range brent hb (ciF2 (probit (probitArg conf)) c k scaled n)
+    simp only [lit_real, Nat.cast_zero] at h1 h2
+    simp only [Set.mem_Icc]
+    refine ⟨⟨?_, ?_⟩, ⟨?_, ?_⟩⟩ <;> linarith [h1.1, h1.2, h2.1, h2.2]
+
+/-- non-vacuity: the contract is satisfiable — by a finder that always fails, and by one that returns
+the lower end of the bracket -/
+example : BrentContract (fun _ _ _ => none) := ⟨by intro _ _ _ _ _ h; cases h⟩
+example : BrentContract (fun lo _ _ => some lo) :=
+  ⟨by intro lo hi _ r hle h; cases h; exact ⟨le_refl _, hle⟩⟩
+
+/-! ### T-ci_order_real -/
+
+/-- T-ci_order_real, first half: at the distance of the point estimate, `f₂(p*) ≤ 0 ≤ f₁(p*)`
+(z ≥ 0 is the normal quantile of a confidence ≥ 0; k ≤ i32::MAX so that `k as i32` is k). -/
+theorem ci_sign_at_point (z c : ℝ) (k scaled n : Nat) (hz : 0 ≤ z) (hc : 0 ≤ c) (hk : 1 ≤ k)
+    (hk' : k ≤ i32Max) :
+    ciF2 z c k scaled n (pStar c k) ≤ 0 ∧ 0 ≤ ciF1 z c k scaled n (pStar c k) := by
+  rw [ciF1_real _ _ _ _ _ hk', ciF2_real _ _ _ _ _ hk', pow_at_pStar c k hc hk]
+  have := mul_nonneg hz (Real.sqrt_nonneg (varDirect scaled n k (pStar c k)))
+  constructor <;> linarith
+
+example : (0:ℝ) ≤ 1.96 ∧ (0:ℝ) ≤ 0.5 ∧ 1 ≤ 21 ∧ 21 ≤ i32Max := by
+  refine ⟨by norm_num, by norm_num, by decide, by decide⟩
+
+/-- T-ci_order_real, second half (intermediate value theorem): if `f₁` is continuous on `[p*, hi]`,
+`f₂` on `[lo, p*]`, and the bracket ends have the signs `f₁(hi) ≤ 0 ≤ f₂(lo)`, then `f₁` has a root
+`r₁ ∈ [p*, hi]`, `f₂` has a root `r₂ ∈ [lo, p*]`, and the interval `(1 − r₁, 1 − r₂)` contains the point
+estimate.  Which root Brent returns (and whether it returns one) is runtime. -/
+theorem ci_roots_exist (z c : ℝ) (k scaled n : Nat) (hz : 0 ≤ z) (hc : 0 ≤ c) (hk : 1 ≤ k)
+    (hk' : k ≤ i32Max)
+    (hlo : bracketLo ≤ pStar c k) (hhi : pStar c k ≤ bracketHi)
+    (hcont1 : ContinuousOn (ciF1 z c k scaled n) (Set.Icc (pStar c k) bracketHi))
+    (hcont2 : ContinuousOn (ciF2 z c k scaled n) (Set.Icc bracketLo (pStar c k)))
+    (hend1 : ciF1 z c k scaled n bracketHi ≤ 0)
+    (hend2 : 0 ≤ ciF2 z c k scaled n bracketLo) :
+    ∃ r1 ∈ Set.Icc (pStar c k) bracketHi, ∃ r2 ∈ Set.Icc bracketLo (pStar c k),
+      ciF1 z c k scaled n r1 = 0 ∧ ciF2 z c k scaled n r2 = 0 ∧
+      1 - r1 ≤ aniFromContainment c (lit k) ∧ aniFromContainment c (lit k) ≤ 1 - r2 := by
+  obtain ⟨h2, h1⟩ := ci_sign_at_point z c k scaled n hz hc hk hk'
+  obtain ⟨r1, hr1, e1⟩ := intermediate_value_Icc' hhi hcont1 ⟨hend1, h1⟩
+  obtain ⟨r2, hr2, e2⟩ := intermediate_value_Icc' hlo hcont2 ⟨h2, hend2⟩
+  refine ⟨r1, hr1, r2, hr2, e1, e2, ?_, ?_⟩
+  · rw [point_is_one_sub_pStar c k hk]; linarith [hr1.1]
+  · rw [point_is_one_sub_pStar c k hk]; linarith [hr2.2]
+
+/-- T-ci_order_real with the continuity discharged: it is enough that no `var_n_mutated` error is
+swallowed on the bracket (the variance expression is ≥ 0 there). -/
+theorem ci_order_real (z c : ℝ) (k scaled n : Nat) (hz : 0 ≤ z) (hc : 0 ≤ c) (hk : 1 ≤ k)
+    (hk' : k ≤ i32Max)
+    (hlo : bracketLo ≤ pStar c k) (hhi : pStar c k ≤ bracketHi)
+    (hvar : ∀ p ∈ Set.Icc (bracketLo : ℝ) bracketHi, 0 ≤ varNExpr (n:ℝ) k p)
+    (hend1 : ciF1 z c k scaled n bracketHi ≤ 0)
+    (hend2 : 0 ≤ ciF2 z c k scaled n bracketLo) :
+    ∃ r1 ∈ Set.Icc (pStar c k) bracketHi, ∃ r2 ∈ Set.Icc bracketLo (pStar c k),
+      ciF1 z c k scaled n r1 = 0 ∧ ciF2 z c k scaled n r2 = 0 ∧
+      1 - r1 ≤ aniFromContainment c (lit k) ∧ aniFromContainment c (lit k) ≤ 1 - r2 := by
+  have hs : ∀ p ∈ Set.Icc (bracketLo : ℝ) bracketHi, p ≠ 0 ∧ 0 ≤ varNExpr (n:ℝ) k p :=
+    fun p hp => ⟨(lt_of_lt_of_le bracketLo_pos hp.1).ne', hvar p hp⟩
+  obtain ⟨c1, c2⟩ := ciF_continuousOn z c scaled n k hk' _ hs
+  exact ci_roots_exist z c k scaled n hz hc hk hk' hlo hhi
+    (c1.mono (Set.Icc_subset_Icc_left hlo)) (c2.mono (Set.Icc_subset_Icc_right hhi)) hend1 hend2
+
+/-- non-vacuity of `ci_order_real`: k = 1, c = 1/2, z = 0, any n ≥ 0 and scaled satisfy all of its
+hypotheses together (for k = 1 the variance expression is the binomial `n·p·(1−p)`). -/
+example (scaled n : Nat) :
+    (bracketLo : ℝ) ≤ pStar (1/2) 1 ∧ pStar (1/2) 1 ≤ (bracketHi : ℝ) ∧
+    (∀ p ∈ Set.Icc (bracketLo : ℝ) bracketHi, 0 ≤ varNExpr (n:ℝ) 1 p) ∧
+    ciF1 (0:ℝ) (1/2) 1 scaled n bracketHi ≤ 0 ∧ 0 ≤ ciF2 (0:ℝ) (1/2) 1 scaled n bracketLo := by
+  have hp : pStar (1/2) 1 = 1/2 := by simp [pStar]; norm_num
+  obtain ⟨elo, ehi⟩ := bracket_real
+  refine ⟨?_, ?_, ?_, ?_, ?_⟩
+  · rw [hp, elo]; norm_num
+  · rw [hp, ehi]; norm_num
+  · intro p hp
+    have hp0 : 0 < p := lt_of_lt_of_le bracketLo_pos hp.1
+    have hp1 : p < 1 := lt_of_le_of_lt hp.2 bracketHi_lt_one
+    rw [varNExpr_k1 _ _ hp0.ne']
+    have : (0:ℝ) ≤ (n:ℝ) := Nat.cast_nonneg n
+    have h1 : 0 ≤ 1 - p := by linarith
+    positivity
+  · rw [ciF1_real _ _ _ _ _ (by decide), ehi]; norm_num
+  · rw [ciF2_real _ _ _ _ _ (by decide), elo]; norm_num
+
+/-! ### T-gather_ani -/
+
+/-- T-gather_ani (any number type): the ANI fields of `calculate_gather_stats` as functions of the
+containments it reports — the point estimates from `f_orig_query` / `f_match_orig`, the intervals from
+`f_unique_to_query` / `f_match` (with ksize, scaled and n_unique_kmers of the match), the average as
+the mean and the max as the maximum of the two point estimates. -/
+theorem gather_ani_fields {α : Type} [RealLike α] (ci : α → Nat → Nat → Nat → Option α → α × α)
+    (r : GatherRatios α) (k scaled nUnique : Nat) (calcCi : Bool) (conf : Option α) :
+    let g := gatherAni ci r k scaled nUnique calcCi conf
+    g.queryContainmentAni = aniFromContainment r.fOrigQuery (lit k) ∧
+    g.matchContainmentAni = aniFromContainment r.fMatchOrig (lit k) ∧
+    g.queryCi = (if calcCi then some (ci r.fUniqueToQuery k scaled nUnique conf) else none) ∧
+    g.matchCi = (if calcCi then some (ci r.fMatch k scaled nUnique conf) else none) ∧
+    g.averageContainmentAni = (g.queryContainmentAni + g.matchContainmentAni) / lit 2 ∧
+    g.maxContainmentAni = fmax g.queryContainmentAni g.matchContainmentAni := by
+  intro g
+  exact ⟨rfl, rfl, rfl, rfl, rfl, rfl⟩
+
+/-- at rank 0 (nothing subtracted yet: `f_unique_to_query = f_orig_query`) the query-side interval is
+the interval of the very containment whose point estimate is reported; later ranks report the interval
+of the *remaining* containment next to the point estimate of the *original* one. -/
+theorem gather_query_ci_rank0 {α : Type} [RealLike α] (ci : α → Nat → Nat → Nat → Option α → α × α)
+    (r : GatherRatios α) (k scaled nUnique : Nat) (conf : Option α)
+    (h : r.fUniqueToQuery = r.fOrigQuery) :
+    (gatherAni ci r k scaled nUnique true conf).queryCi = some (ci r.fOrigQuery k scaled nUnique conf) := by
+  simp [gatherAni, h]
+
+example : ({ fOrigQuery := 1/2, fMatchOrig := 1/3, fUniqueToQuery := 1/2, fMatch := 1/3 }
+    : GatherRatios ℝ).fUniqueToQuery = (1/2 : ℝ) := rfl
+
+/-- T-gather_ani over ℝ: with containments in [0,1] and k ≥ 1, the two point estimates are
+`c^(1/k)`, `max` is their maximum, the average lies between them, and all four lie in [0,1]. -/
+theorem gather_ani_real (ci : ℝ → Nat → Nat → Nat → Option ℝ → ℝ × ℝ) (r : GatherRatios ℝ)
+    (k scaled nUnique : Nat) (calcCi : Bool) (conf : Option ℝ) (hk : 1 ≤ k)
+    (hq : r.fOrigQuery ∈ Set.Icc (0:ℝ) 1) (hm : r.fMatchOrig ∈ Set.Icc (0:ℝ) 1) :
+    let g := gatherAni ci r k scaled nUnique calcCi conf
+    g.queryContainmentAni = r.fOrigQuery ^ (1 / (k:ℝ)) ∧
+    g.matchContainmentAni = r.fMatchOrig ^ (1 / (k:ℝ)) ∧
+    g.maxContainmentAni = max g.queryContainmentAni g.matchContainmentAni ∧
+    g.averageContainmentAni = (g.queryContainmentAni + g.matchContainmentAni) / 2 ∧
+    min g.queryContainmentAni g.matchContainmentAni ≤ g.averageContainmentAni ∧
+    g.averageContainmentAni ≤ g.maxContainmentAni ∧
+    g.queryContainmentAni ∈ Set.Icc (0:ℝ) 1 ∧ g.matchContainmentAni ∈ Set.Icc (0:ℝ) 1 ∧
+    g.averageContainmentAni ∈ Set.Icc (0:ℝ) 1 ∧ g.maxContainmentAni ∈ Set.Icc (0:ℝ) 1 := by
+  have hk1 : (1:ℝ) ≤ (k:ℝ) := by exact_mod_cast hk
+  have hqr := point_real_range r.fOrigQuery (k:ℝ) hk1 hq
+  have hmr := point_real_range r.fMatchOrig (k:ℝ) hk1 hm
+  have hmax : ∀ a b : ℝ, fmax a b = max a b := by
+    intro a b
+    simp only [fmax, blt_real, decide_eq_true_eq]
+    split_ifs with h
+    · exact (max_eq_right h.le).symm
+    · exact (max_eq_left (not_lt.mp h)).symm
+  simp only [gatherAni, lit_real, hmax, Nat.cast_ofNat]
+  set q := aniFromContainment r.fOrigQuery (k:ℝ) with hqdef
+  set m := aniFromContainment r.fMatchOrig (k:ℝ) with hmdef
+  have hq01 : q ∈ Set.Icc (0:ℝ) 1 := hqr
+  have hm01 : m ∈ Set.Icc (0:ℝ) 1 := hmr
+  refine ⟨point_real_eq _ _ hk1, point_real_eq _ _ hk1, trivial, trivial, ?_, ?_, hq01, hm01, ?_, ?_⟩
+  · rcases le_total q m with h | h
+    · rw [min_eq_left h]; linarith
+    · rw [min_eq_right h]; linarith
+  · rcases le_total q m with h | h
+    · rw [max_eq_right h]; linarith
+    · rw [max_eq_left h]; linarith
+  · exact ⟨by linarith [hq01.1, hm01.1], by linarith [hq01.2, hm01.2]⟩
+  · rcases le_total q m with h | h
+    · rw [max_eq_right h]; exact hm01
+    · rw [max_eq_left h]; exact hq01
+
+/-- non-vacuity: ratios of set sizes lie in [0,1] -/
+example : (1 ≤ 21) ∧ ((3:ℝ)/10) ∈ Set.Icc (0:ℝ) 1 := by
+  refine ⟨by decide, ?_⟩
+  constructor <;> norm_num
+
+/-- the containments gather feeds in are ratios `|A ∩ B| / |A|` of set sizes, hence in [0,1] -/
+theorem gather_ratios_in_unit (isectOrig isectRem origSize matchSize matchArg : Nat)
+    (h1 : isectOrig ≤ origSize) (h2 : isectOrig ≤ matchSize) (ho : 0 < origSize) (hm : 0 < matchSize) :
+    (gatherRatios isectOrig isectRem origSize matchSize matchArg : GatherRatios ℝ).fOrigQuery ∈ Set.Icc (0:ℝ) 1 ∧
+    (gatherRatios isectOrig isectRem origSize matchSize matchArg : GatherRatios ℝ).fMatchOrig ∈ Set.Icc (0:ℝ) 1 := by
+  have ho' : (0:ℝ) < origSize := by exact_mod_cast ho
+  have hm' : (0:ℝ) < matchSize := by exact_mod_cast hm
+  have h1' : (isectOrig:ℝ) ≤ origSize := by exact_mod_cast h1
+  have h2' : (isectOrig:ℝ) ≤ matchSize := by exact_mod_cast h2
+  simp only [gatherRatios, lit_real, Set.mem_Icc]
+  refine ⟨⟨by positivity, ?_⟩, ⟨by positivity, ?_⟩⟩
+  · rw [div_le_one ho']; exact h1'
+  · rw [div_le_one hm']; exact h2'
+
+example : (3 ≤ 10) ∧ (3 ≤ 12) ∧ (0 < 10) ∧ (0 < 12) := by decide
 
 end Sourmash.C19
